@@ -48,7 +48,9 @@ def service_desc(draw, i: int) -> Dict[str, Any]:
     return {'type': t, 'name': f'{label}.{BASE_OF[t]}', 'port': draw(st.sampled_from([80, 8080, 65535])), 'server': host,
             'addrs': draw(st.sampled_from(ADDRSETS)), 'props': draw(st.sampled_from(TEXTS)), 'host_ttl': host_ttl,
             'other_ttl': draw(st.sampled_from([4500, 4500, 120, 75, 2, 1])), 'weight': draw(st.sampled_from([0, 5])),
-            'priority': draw(st.sampled_from([0, 1]))}
+            'priority': draw(st.sampled_from([0, 1])),
+            # (the description may name the interface its link-local addresses belong to; what is offered does not change)
+            'interface_index': draw(st.sampled_from([None, None, 3]))}
 
 
 q_st = st.tuples(st.sampled_from(['type', 'inst', 'host', 'type', 'inst', 'host', 'enum', 'ghost', 'pool-type', 'pool-inst',
